@@ -1791,13 +1791,16 @@ func (c *compiler) VisitCastExpr(e *ast.CastExpr) ast.VisitResult {
 			return ast.VisitRecurse
 		}
 
-		listType := c.getListType(lhsTyp)
-		list := c.NewAlloca(listType.typ)
-		c.cbb.NewCall(listType.fromConstantsIrFun, list, newInt(1))
-		elementPtr := c.indexArray(c.loadStructField(list, list_arr_field_index), zero)
-		c.claimOrCopy(elementPtr, lhs, lhsTyp, isTempLhs)
-		c.latestReturn, c.latestReturnType = c.scp.addTemporary(list, listType)
-		c.latestIsTemp = true
+		// casts between a list type and a type definition of it do not change the value
+		if _, isList := lhsTyp.(*ddpIrListType); !isList {
+			listType := c.getListType(lhsTyp)
+			list := c.NewAlloca(listType.typ)
+			c.cbb.NewCall(listType.fromConstantsIrFun, list, newInt(1))
+			elementPtr := c.indexArray(c.loadStructField(list, list_arr_field_index), zero)
+			c.claimOrCopy(elementPtr, lhs, lhsTyp, isTempLhs)
+			c.latestReturn, c.latestReturnType = c.scp.addTemporary(list, listType)
+			c.latestIsTemp = true
+		}
 	} else {
 		// helper function to cast primitive from any to their concrete type
 		primitiveAnyCast := func(primTyp ddpIrType) {
